@@ -67,6 +67,7 @@ SortedSeq(S) == IF S = {} THEN <<>>
                 ELSE LET m == CHOOSE x \in S : \A y \in S : x <= y
                      IN <<m>> \o SortedSeq(S \ {m})
 
-RECURSIVE SumSeq(_)
-SumSeq(sq) == IF sq = <<>> THEN 0 ELSE Head(sq) + SumSeq(Tail(sq))
+RECURSIVE SumUpTo(_, _)
+SumUpTo(sq, n) == IF n = 0 THEN 0 ELSE sq[n] + SumUpTo(sq, n - 1)
+SumSeq(sq) == SumUpTo(sq, Len(sq))
 =====================================================================
